@@ -63,4 +63,13 @@ def main(argv):
 
 
 if __name__ == '__main__':
-    sys.exit(main(sys.argv[1:]))
+    try:
+        rc = main(sys.argv[1:])
+    except SystemExit:
+        raise
+    except BaseException:          # an uncaught exception is a harness error (exit 2), never a violation (exit 1)
+        import traceback
+        traceback.print_exc()
+        print('HARNESS-ERROR: the check itself failed; nothing is reported about the property')
+        rc = 2
+    sys.exit(rc)
